@@ -12,7 +12,9 @@ package lib
 //
 //	e<o>        b := slot[o].GobEncode(); hold b (not copied)
 //	g<o>        encode slot[o] with a gob.Encoder of its own; hold the stream
-//	d<o>:<h>    slot[o].GobDecode(held h)        (the receiver keeps whatever history it has)
+//	d<o>:<h>    slot[o].GobDecode(held h)        (the receiver keeps whatever history it has; the
+//	            bytes are passed in ONE scratch buffer that all d steps of the case reuse and
+//	            that is overwritten after every second step and before the final validation)
 //	D<o>:<h>    gob-decode the held stream h into slot[o]
 //	G<o>+<o>..><r>+<r>..   encode the slots with ONE gob.Encoder into one stream, decode it with
 //	            ONE gob.Decoder into the receivers r (a slot number, or f = a fresh Dawg that is
@@ -95,6 +97,7 @@ func execHistory(c tcase) hx.Result {
 		slots[j], content[j] = new(dawg.Dawg), -1
 	}
 	var helds []heldEnc
+	var scratch []byte // the caller's buffer of the direct decodes (d steps), reused
 	var extras []extraObj
 	canon := make([][]byte, n)
 	usedReceiver, multiHeld := false, false
@@ -124,7 +127,7 @@ func execHistory(c tcase) hx.Result {
 				fail("C14:history-held-decode-error", "step %d (%s): the gob stream held since step %d no longer decodes: %v", step, where, h.step, err)
 				return
 			}
-		} else if err := d.GobDecode(append([]byte{}, h.b...)); err != nil {
+		} else if err := decodeScribble(d, h.b, 4+k); err != nil {
 			fail("C14:history-held-decode-error", "step %d (%s): the encoding held since step %d no longer decodes: %v", step, where, h.step, err)
 			return
 		}
@@ -212,7 +215,19 @@ func execHistory(c tcase) hx.Result {
 			}
 			var err error
 			if op[0] == 'd' {
-				err = slots[o].GobDecode(append([]byte{}, helds[k].b...))
+				// one scratch buffer of the case serves all the direct decodes: it still holds
+				// the previous encoding when the next one is copied into it, and on every
+				// second step it is overwritten right after the call
+				hb := helds[k].b
+				if cap(scratch) < len(hb) {
+					scribble(scratch, step)
+					scratch = make([]byte, 0, 2*len(hb)+16)
+				}
+				scratch = append(scratch[:0], hb...)
+				err = slots[o].GobDecode(scratch)
+				if step%2 == 0 {
+					scribble(scratch, step/2)
+				}
 			} else {
 				err = gob.NewDecoder(bytes.NewReader(helds[k].b)).Decode(slots[o])
 			}
@@ -290,6 +305,7 @@ func execHistory(c tcase) hx.Result {
 		}
 	}
 	step++
+	scribble(scratch, len(c.prog))
 	checkAll("end", true)
 
 	// per source: the plain observation, from the first direct encoding the program held
